@@ -17,8 +17,11 @@ else
   # in-package test file(s): copy into the module the README names (guess from package clause)
   pkg=$(grep -h '^package ' "$SRC"/*.go | head -1 | awk '{print $2}')
   case "$pkg" in service|service_test) mod=service;; attachment|attachment_test) mod=attachment;; terminal|terminal_test) mod=terminal;; *) mod=protocol;; esac
-  cp -r "$REPO/$mod" "$W/$mod"; cp "$SRC"/*.go "$W/$mod/"
-  cd "$W/$mod" || exit 2
+  sub=.
+  case "$pkg" in jt808|jt808_test) sub=jt808;; model|model_test) sub=model;; jt1078|jt1078_test) sub=jt1078;; esac
+  [ -d "$REPO/$mod/$sub" ] || sub=.
+  cp -r "$REPO/$mod" "$W/$mod"; cp "$SRC"/*.go "$W/$mod/$sub/"
+  cd "$W/$mod/$sub" || exit 2
   # module deps resolve as in the original module (cached versions) unless replaced
   timeout 600 go test $FLAGS -vet=off -count=1 -run . ./ 2>&1 | tail -${TAIL:-6}
 fi
